@@ -10,7 +10,7 @@
 
     An argument value is represented by its value hash ([type_registry.get_hash]); a
     [JobInfo] instance is [AInfo] (its payload is whatever get_hash would give for it).
-    Parameter kinds: positional-or-keyword, *var, keyword-only, **var.  Positional-only
+    Kinds of parameters modelled: positional-or-keyword, *var, keyword-only, **var.  Positional-only
     parameters are outside the model (redun passes unbound defaults by keyword, which
     Python rejects for positional-only parameters). *)
 From Coq Require Import List ZArith Ascii Bool Arith.
